@@ -697,3 +697,111 @@ func plainAccepts(t types.Type, k tab.Kind, hook map[string]bool) (bool, string)
 	}
 	return false, "unsupported model type"
 }
+
+// ---------------------------------------------------------------------------
+// FMTVERB: keys and rendered entries built with fmt.Sprintf from untyped YAML
+// values use a verb that prints every admissible type alike. `%s` applied to
+// an integer or `%d` applied to a string prints `%!s(int=8080)`, so the same
+// port / path written with another YAML type gets another key. For every
+// Sprintf with a constant format in the given packages: an operand of
+// interface type whose dynamic type is not known to be a string (resp. an
+// integer) must not be formatted with %s (resp. %d).
+// ---------------------------------------------------------------------------
+
+func (c *Ctx) FMTVERB(rule string, pkgs ...string) []report.Obligation {
+	var out []report.Obligation
+	n := 0
+	for _, fn := range c.P.Funcs {
+		id := c.P.FuncID(fn)
+		in := false
+		for _, p := range pkgs {
+			if strings.HasPrefix(id, p+".") {
+				in = true
+			}
+		}
+		if !in {
+			continue
+		}
+		for _, cs := range callSites(fn, func(com *ssa.CallCommon) bool { return staticName(com) == "fmt.Sprintf" }) {
+			format, ok := prog.ConstString(cs.Common().Args[0])
+			if !ok || len(cs.Common().Args) < 2 {
+				continue
+			}
+			sl, ok := cs.Common().Args[1].(*ssa.Slice)
+			if !ok {
+				continue
+			}
+			al, ok := sl.X.(*ssa.Alloc)
+			if !ok {
+				continue
+			}
+			// operands by index
+			ops := map[int64]ssa.Value{}
+			for _, r := range *al.Referrers() {
+				if ia, ok := r.(*ssa.IndexAddr); ok {
+					k, isC := constInt(ia.Index)
+					if !isC {
+						continue
+					}
+					for _, rr := range *ia.Referrers() {
+						if st, ok := rr.(*ssa.Store); ok && st.Addr == ssa.Value(ia) {
+							ops[k] = st.Val
+						}
+					}
+				}
+			}
+			// verbs in order (flags and widths skipped; %% and %[n] not used in this repository)
+			var verbs []byte
+			for i := 0; i < len(format); i++ {
+				if format[i] != '%' {
+					continue
+				}
+				j := i + 1
+				for j < len(format) && strings.IndexByte("+-# 0123456789.", format[j]) >= 0 {
+					j++
+				}
+				if j < len(format) {
+					if format[j] != '%' {
+						verbs = append(verbs, format[j])
+					}
+					i = j
+				}
+			}
+			for vi, verb := range verbs {
+				if verb != 's' && verb != 'd' {
+					continue
+				}
+				op, has := ops[int64(vi)]
+				if !has {
+					continue
+				}
+				if _, isMI := op.(*ssa.MakeInterface); isMI {
+					continue // a typed operand: go vet's printf check decides it
+				}
+				if !types.IsInterface(op.Type()) {
+					continue
+				}
+				n++
+				ts := c.dyn.At(op, cs.Block(), nil, 3)
+				good := !ts.Top && len(ts.Ts) > 0
+				for _, t := range ts.Ts {
+					bt, isB := t.Underlying().(*types.Basic)
+					switch {
+					case verb == 's' && isB && bt.Info()&types.IsString != 0:
+					case verb == 'd' && isB && bt.Info()&types.IsInteger != 0:
+					case verb == 's' && !isB:
+						// a type with a String/Error method prints through it; anything else is not expected here
+						good = good && (types.NewMethodSet(t).Lookup(nil, "String") != nil || types.NewMethodSet(t).Lookup(nil, "Error") != nil)
+					default:
+						good = false
+					}
+				}
+				key := fmt.Sprintf("%s :: %%%c of operand %d in %q", id, verb, vi, format)
+				out = append(out, verdict(good, rule, key, c.P.InstrPos(cs), "the operand can only hold the type the verb prints",
+					fmt.Sprintf("an untyped YAML value (%s) is formatted with %%%c: another admissible YAML type prints as %%!%c(...), so the same entry spelled with that type gets a different key / text", c.P.KeyTerm(op, 2), verb, verb)))
+			}
+		}
+	}
+	out = append(out, report.Obligation{Rule: rule, Key: "inventory", Status: report.Discharged, Why: fmt.Sprintf("%d %%s/%%d operands of interface type in Sprintf calls of %v", n, pkgs)})
+	return out
+}
